@@ -94,6 +94,23 @@ class Encoder(object):
             ipaddress.IPv6Address: self.cql_encode_ipaddress
         })
 
+    def _encoder_for(self, val):
+        """
+        The encoder registered for the type of `val`, or for its nearest base class
+        (so that subclasses of str, int, list, ... are encoded like their base type
+        instead of being rendered unquoted with :meth:`str()`).
+        """
+        cls = type(val)
+        encoder = self.mapping.get(cls)
+        if encoder is None:
+            for base in cls.__mro__[1:]:
+                encoder = self.mapping.get(base)
+                if encoder is not None:
+                    break
+            else:
+                encoder = self.cql_encode_object
+        return encoder
+
     def cql_encode_none(self, val):
         """
         Converts :const:`None` to the string 'NULL'.
@@ -172,7 +189,7 @@ class Encoder(object):
         Converts a sequence to a string of the form ``(item1, item2, ...)``.  This
         is suitable for ``IN`` value lists.
         """
-        return '(%s)' % ', '.join(self.mapping.get(type(v), self.cql_encode_object)(v)
+        return '(%s)' % ', '.join(self._encoder_for(v)(v)
                                      for v in val)
 
     cql_encode_tuple = cql_encode_sequence
@@ -187,8 +204,8 @@ class Encoder(object):
         This is suitable for ``map`` type columns.
         """
         return '{%s}' % ', '.join('%s: %s' % (
-            self.mapping.get(type(k), self.cql_encode_object)(k),
-            self.mapping.get(type(v), self.cql_encode_object)(v)
+            self._encoder_for(k)(k),
+            self._encoder_for(v)(v)
         ) for k, v in val.items())
 
     def cql_encode_list_collection(self, val):
@@ -196,21 +213,21 @@ class Encoder(object):
         Converts a sequence to a string of the form ``[item1, item2, ...]``.  This
         is suitable for ``list`` type columns.
         """
-        return '[%s]' % ', '.join(self.mapping.get(type(v), self.cql_encode_object)(v) for v in val)
+        return '[%s]' % ', '.join(self._encoder_for(v)(v) for v in val)
 
     def cql_encode_set_collection(self, val):
         """
         Converts a sequence to a string of the form ``{item1, item2, ...}``.  This
         is suitable for ``set`` type columns.
         """
-        return '{%s}' % ', '.join(self.mapping.get(type(v), self.cql_encode_object)(v) for v in val)
+        return '{%s}' % ', '.join(self._encoder_for(v)(v) for v in val)
 
     def cql_encode_all_types(self, val, as_text_type=False):
         """
         Converts any type into a CQL string, defaulting to ``cql_encode_object``
         if :attr:`~Encoder.mapping` does not contain an entry for the type.
         """
-        encoded = self.mapping.get(type(val), self.cql_encode_object)(val)
+        encoded = self._encoder_for(val)(val)
         if as_text_type and not isinstance(encoded, str):
             return encoded.decode('utf-8')
         return encoded
